@@ -166,7 +166,8 @@ Target Tables:
             self._sql_holder.get_column_lineage(
                 exclude_path_ending_in_subquery, exclude_subquery_columns
             ),
-            key=lambda x: (str(x[-1]), str(x[0])),
+            # the whole path breaks ties, otherwise their order is set iteration order (string hash seed)
+            key=lambda x: (str(x[-1]), str(x[0]), [str(c) for c in x]),
         )
 
     def print_column_lineage(self) -> None:
